@@ -92,6 +92,7 @@ type Frame struct {
 	closures map[types.Object]*ast.FuncLit
 	closureSig *types.Signature
 	iterStarts map[int]*State
+	paramObjs  []types.Object
 }
 
 type Exec struct {
@@ -110,6 +111,9 @@ type Exec struct {
 	loadSeen   map[string]bool
 	curClause        *Clause
 	nameCount        map[string]int
+	poolRefs         []*Term
+	inObjInv         bool
+	objInvSeen       map[string]bool
 	bndMentions      map[*Term][]*Term
 	structRoot       map[*Term]*Term
 	wfRoot           map[*Term]*Term
@@ -481,6 +485,9 @@ func (x *Exec) typeInv(s *State, v *Term, t types.Type, depth int) *Term {
 func (x *Exec) havocValue(s *State, base string, t types.Type) *Term {
 	v := x.freshVar(base, x.eng.tm.sortOf(t))
 	s.assume(x.typeInv(s, v, t, 0))
+	if isPointer(t) {
+		x.assumeObjInv(s, v, t)
+	}
 	return v
 }
 
@@ -1349,6 +1356,7 @@ func (x *Exec) loadField(s *State, ref *Term, si *structInfo, i int) *Term {
 			_ = key
 			s.assume(x.typeInv(s, v, ft, 0))
 		}
+		x.assumeObjInv(s, v, ft)
 	}
 	return v
 }
